@@ -2,7 +2,9 @@
 package props
 
 import (
+	"fmt"
 	"sort"
+	"sync"
 
 	"verifharness/internal/core"
 )
@@ -11,7 +13,54 @@ var registry = map[string]func(*core.Ctx){}
 
 func register(id string, f func(*core.Ctx)) { registry[id] = f }
 
-func Lookup(id string) func(*core.Ctx) { return registry[id] }
+func Lookup(id string) func(*core.Ctx) {
+	f := registry[id]
+	if f == nil {
+		return nil
+	}
+	return func(c *core.Ctx) {
+		if c.Mode == "par" {
+			runPar(c, f)
+			return
+		}
+		f(c)
+	}
+}
+
+// runPar: mode "par" of the sequential properties. 2..8 goroutines run one sequential
+// case each, at the same time, on objects entirely their own. Values that are not shared
+// must not influence each other: package-level state inside the library (pools, memo
+// tables, striped locks) shows up here as a wrong result in one of the cases or, in the
+// race build, as a data race report with library frames.
+func runPar(c *core.Ctx, f func(*core.Ctx)) {
+	g := c.R.Range(2, 8)
+	kids := make([]*core.Ctx, g)
+	var wg sync.WaitGroup
+	start := make(chan struct{})
+	for i := range kids {
+		// sub-case indices start at 1000: the small indices of the sequential modes are
+		// exhaustive sweeps and other heavy one-per-run cases
+		kids[i] = c.Fork(1000+c.Index*8+int64(i), core.Mix(c.Seed, uint64(i)+1))
+		wg.Add(1)
+		go func(k *core.Ctx) {
+			defer wg.Done()
+			defer func() {
+				if p := recover(); p != nil {
+					k.Violate("harness-level-panic:"+fmt.Sprint(p), fmt.Sprintf("panic escaped the monitor: %v", p), nil)
+				}
+			}()
+			<-start
+			f(k)
+		}(kids[i])
+	}
+	close(start)
+	wg.Wait()
+	for i, k := range kids {
+		c.Join(k, fmt.Sprintf("[one of %d sequential cases run at the same time on separate goroutines, each on objects of its own; this was sub-case %d, sequential case index %d]", g, i, k.Index))
+	}
+	c.Count("par_cases", 1)
+	c.Count("par_goroutines", int64(g))
+}
 
 func IDs() []string {
 	var out []string
